@@ -253,7 +253,7 @@ def s_nested(F, res):
         else:
             res.add([ok("S-NESTED", key, where(f), "children reduced with Apply::reduce, same variant rebuilt")])
     res.count("reduce_nested impls", n)
-    res.floor("reduce_nested impls", n, 2)
+    res.floor("reduce_nested impls", n, 1)
 
 
 def node_t1(F, res):
@@ -323,4 +323,8 @@ def run(ctx):
     s_nested(F, res)
     res.rule("S-STAGES", "compiler-evaluated built-ins are a stage of every round of the resolver (after apply_fees, before compile)")
     s_stages(F, res)
+    # "fold only when all components are constant": the gate (`is_constant` over Composite::components) is only as good as the
+    # component lists - a component left out of `components()` (the index of a Property) lets a node fold while that operand is
+    # still pending, in one order of application and not in another (rule T1 of C06, restricted to the component lists)
+    c06.t1(F, res, only={"components", "try_map_components"}, rule="T1")
     return res
